@@ -171,6 +171,11 @@ def universe(tier):
         for m in inner:
             for u in (K2(m) if tier == "thorough" else Kq(m)):
                 add(u)
+    # ranges that are not the last thing in the stream
+    for k in RANGES:
+        for ix in [prim("u8"), prim("u64"), inst("P1")]:
+            r = rng(k, ix)
+            add(vec(opt(r))); add(arr(opt(r), 3)); add(cflow(r, STRING)); add(opt(bound(r)))
     # generic derived items
     args = [prim("u8"), prim("u64"), UNIT, STRING, vec(prim("u8")), vec(prim("u32")), vec(STRING), vec(vec(prim("u16"))),
             inst("P1"), inst("Z16"), inst("D1"), inst("E1"), opt(vec(prim("u64"))), boxs(inst("P1")), arr(prim("u32"), 3), tup(prim("u16"), 2)]
@@ -186,7 +191,7 @@ def universe(tier):
             gens += [inst("ZG", [a])]
         if not a.zero:
             gens += [inst("GI", [a]), inst("GEI", [a])]
-    small = [prim("u8"), STRING, vec(prim("u32")), inst("P1"), inst("Z16"), vec(STRING)]
+    small = [prim("u8"), STRING, vec(prim("u32")), inst("P1"), inst("Z16"), vec(STRING), rng("RangeInclusive", prim("u32")), rng("Range", prim("u64")), vec(prim("u128"))]
     for a in small:
         for b in small:
             gens += [inst("G2", [a, b]), inst("GE", [a, b])]
